@@ -71,9 +71,9 @@ theorem apiStep_keeps {w : World} {env : Env} (hwf : env.cfg.WF) (hw : WorldOk e
     rcases hm with hm | ⟨_, hm⟩
     · exact Or.inl hm
     · exact Or.inr hm
-  | replayEnter c d _ _ hd => exact ⟨hs _ rfl, keeps_replayEnter env d hd⟩
+  | replayEnter c d _ _ _ hd => exact ⟨hs _ rfl, keeps_replayEnter env d hd⟩
   | replayClear => exact ⟨hs _ rfl, keeps_modifyCore fun c h => coreOk_setPrev _ h⟩
-  | replayTransition c d _ hd => exact ⟨hs _ rfl, keeps_replayTransition env d hd⟩
+  | replayTransition c d _ _ hd => exact ⟨hs _ rfl, keeps_replayTransition env d hd⟩
   | attachLogger c on => exact ⟨hs _ rfl, keeps_modifyCore fun c h => ⟨h.active, h.requested, h.request, h.plan, h.planLen⟩⟩
 
 theorem stepAll_worldOk (cfg : Cfg) (hwf : cfg.WF) (beh : Beh) (w : World) (k : Nat) (op : Op) (hw : WorldOk cfg w) :
